@@ -40,7 +40,9 @@ MODELS = {
     "Derive": {
         "module": "mc/MC_Derive.tla", "spec": "MCSpec", "view": "MCView",
         "constants": {"quick": {"MaxBase": 2, "MaxFollow": 0, "MaxPairs": 1, "Tier": '"quick"', "BaseMode": '"singles"'},
-                      "thorough": {"MaxBase": 2, "MaxFollow": 1, "MaxPairs": 2, "Tier": '"thorough"', "BaseMode": '"all"'}},
+                      # thorough: the quick pools with ALL bases (one- and two-record), two-pair maps and a follow-up add; the wide
+                      # pools (Tier = "thorough") are used by the thorough-only instances of PLAN below (they multiply too fast otherwise)
+                      "thorough": {"MaxBase": 2, "MaxFollow": 1, "MaxPairs": 2, "Tier": '"quick"', "BaseMode": '"all"'}},
         "always": ["Inv_Struct"], "properties": ["P_C10"],
     },
     "Remap": {
@@ -70,11 +72,15 @@ PLAN = {
     "C05": [("Incr", [], {}), ("Incr", [], {"MaxOps": 1, "Wide": "TRUE"})],
     "C09": [("Derive", ["Inv_C09"], {"Ops": '{"chain", "sub"}'}),
             ("Derive", ["Inv_C09"], {"Ops": '{"chain", "sub"}', "MaxBase": 1, "BaseMode": '"all"'}),
-            ("Derive", ["Inv_C09"], {"Ops": '{"chain"}', "MaxBase": 2, "BaseMode": '"bridge"'})],     # a later record bridges two earlier ones
-    "C12": [("Derive", ["Inv_C12"], {"Ops": '{"remap_uri", "rewire"}', "MaxBase": 1, "BaseMode": '"all"'})],
+            ("Derive", ["Inv_C09"], {"Ops": '{"chain"}', "MaxBase": 2, "BaseMode": '"bridge"'}),     # a later record bridges two earlier ones
+            ("Derive", ["Inv_C09"], {"Ops": '{"chain", "sub"}', "MaxBase": 1, "BaseMode": '"all"', "Tier": '"thorough"', "MaxFollow": 0}, {"thorough"}),
+            ("Derive", ["Inv_C09"], {"Ops": '{"chain"}', "MaxBase": 2, "BaseMode": '"bridge"', "Tier": '"thorough"', "MaxFollow": 0}, {"thorough"})],
+    "C12": [("Derive", ["Inv_C12"], {"Ops": '{"remap_uri", "rewire"}', "MaxBase": 1, "BaseMode": '"all"'}),
+            ("Derive", ["Inv_C12"], {"Ops": '{"remap_uri", "rewire"}', "MaxBase": 1, "BaseMode": '"all"', "Tier": '"thorough"', "MaxPairs": 1, "MaxFollow": 0}, {"thorough"})],
     "C10": [("Derive", [], {"Ops": '{"chain", "sub"}', "MaxFollow": 1}),
             ("Derive", [], {"Ops": '{"chain", "sub", "remap_uri", "rewire"}', "MaxFollow": 1, "MaxBase": 1, "BaseMode": '"all"'}),
             ("Remap", [], {"MaxRecs": 1}),
+            ("Derive", [], {"Ops": '{"chain", "sub", "remap_uri", "rewire"}', "MaxBase": 1, "BaseMode": '"all"', "Tier": '"thorough"', "MaxPairs": 1, "MaxFollow": 0}, {"thorough"}),
             ("System", [], {})],       # writing a file changes no converter; reading one changes none but the new one
     "C11": [("Remap", ["Inv_C11"], {})],
 }
